@@ -27,23 +27,44 @@
 
 void vk_other(void) {}
 
-/* every memcpy/memset range: ranges in kernel shm memory must stay inside the segment */
+#define SEM_SLOT 4          /* key stub: lock semaphore of PShm "a" */
+static PShmBuffer *b[2];
+static int cur_k = -1, nest_done, in_nested;
+
+/* every memcpy/memset range of pshmbuffer.c.  Ranges in kernel shm memory must stay inside the segment, and - "concurrent
+ * reads and writes are atomic with respect to each other" through DIFFERENT handles - may only happen while THE lock
+ * semaphore published for the name is taken (a handle holding some other semaphore generation excludes nobody).
+ * -DNEST: at the first segment access of the operation the other process tries an operation through the other handle
+ * of the same name (on a solver-chosen branch): its p_shm_lock must block (that path ends in the model), it must never get in. */
 void vm_mem_access(const void *p, size_t n, int is_write) {
   (void) is_write;
   for (int o = 0; o < VK_NSHM; o++)
-    if (__CPROVER_same_object(p, vk_shm_mem(o)))
+    if (__CPROVER_same_object(p, vk_shm_mem(o))) {
       VASSERT(__CPROVER_POINTER_OFFSET(p) + n <= (unsigned long) vk_shm_size(o), "no operation touches memory outside the segment");
+      int so = vk_sem_linked(SEM_SLOT);
+      VASSERT(so >= 0 && vk_sem_value(so) == 0, "the segment is accessed only while the lock semaphore of the name is taken (one lock for all handles)");
+#ifdef NEST
+      if (!nest_done && !in_nested && cur_k >= 0 && ND_BOOL()) {
+        int me = vk_cur;
+        nest_done = 1; in_nested = 1;
+        VWITNESS("other handle attempts an operation while this handle is inside one");
+        vk_cur = 1 - cur_k;
+        (void) p_shm_buffer_get_used_space(b[1 - cur_k], NULL);
+        VASSERT(0, "the other handle of the same name got the lock while this handle is inside an operation (no mutual exclusion across handles)");
+        vk_cur = me; in_nested = 0;
+      }
+#endif
+    }
 }
 
 static unsigned char q[SMAX];      /* reference FIFO */
 static unsigned long qn, cap;
 
-static PShmBuffer *b[2];
 static int n_cross, last_writer = -1;
 
 /* one operation through handle k (k is a constant at each call site: keeps every pointer concrete) */
 static void do_op(int k, int op) {
-  vk_cur = k;
+  vk_cur = k; cur_k = k;
   if (op == 0) {
     unsigned long len = (unsigned long) ND_RANGE(1, SMAX + 1);
     unsigned char d[SMAX + 1];
@@ -131,7 +152,8 @@ void harness(void) {
    * and data stay symbolic */
   static const int ops[] = { OPS };
   for (int i = 0; i < (int) (sizeof ops / sizeof ops[0]); i++) do_op((START + i) & 1, ops[i]);
-  VASSERT(vk_sem_value(vk_sem_linked(4)) == 1, "lock released after every operation");
+  cur_k = -1;
+  VASSERT(vk_sem_value(vk_sem_linked(SEM_SLOT)) == 1, "lock released after every operation");
   VWITNESS("history completed");
 #ifndef KF_DEMO_SMALLER
 #ifdef EXPECT_CROSS
